@@ -531,6 +531,79 @@ def r_sentence_loop(repo, rep, R, table_info):
     return {'paths': len(entered)}
 
 
+def r_tree_factories(repo, rep, R):
+    """Tree.make_terminal / make_unary / make_binary each return a NEW Tree built from exactly their own arguments, and
+    Tree.__init__ stores them unchanged; the class keeps no shared state."""
+    tm = repo.module('depccg/tree.py')
+    cls = tm.get('Tree')
+    spec = {
+        'make_terminal': lambda a: [('call', N('Tree'), (N('cat'), ('list', (t,)), N('op_string'), N('op_symbol')), ()) for t in
+                                    (N('word'), ('call', N('Token'), (), (('word', N('word')),)))],
+        'make_unary': lambda a: [('call', N('Tree'), (N('cat'), ('list', (N('child'),)), N('op_string'), N('op_symbol')), ())],
+        'make_binary': lambda a: [('call', N('Tree'), (N('cat'), ('list', (N('left'), N('right'))), N('op_string'), N('op_symbol'), N('head_is_left')), ())],
+    }
+    for name, mk in spec.items():
+        fn = tm.get('Tree.' + name)
+        w = '%s:%s Tree.%s' % (tm.rel, fn.lineno, name)
+        want = mk(None)
+        rets = [st.ret for st, o in SymExec(fn).run() if o == 'return']
+
+        def norm(t):
+            # keyword form Tree(cat=..., children=...) -> positional
+            if t and t[0] == 'call' and t[1] == N('Tree') and t[3]:
+                order = ['cat', 'children', 'op_string', 'op_symbol', 'head_is_left']
+                kw = dict(t[3])
+                pos = list(t[2]) + [kw[k] for k in order[len(t[2]):] if k in kw]
+                return ('call', N('Tree'), tuple(pos), ())
+            return t
+        ok = bool(rets) and all(norm(r) in want for r in rets) and (name != 'make_terminal' or {norm(r) for r in rets} == set(want))
+        rep.check(ok, R, w, 'Tree.%s:fresh' % name, 'Tree.%s returns a new Tree built from its own arguments' % name,
+                  'Tree.%s returns %s' % (name, [show(r)[:70] if r else None for r in rets]))
+        if name == 'make_terminal':
+            conds = {show(c) for st, o in SymExec(fn).run() for c, pol, _ in st.conds}
+            rep.check(conds == {"isinstance(word, Token)"}, R, w, 'Tree.make_terminal:token', 'a Token argument is used as is, any other word is wrapped into Token(word=...)',
+                      'make_terminal branches on %s' % sorted(conds))
+    init = tm.get('Tree.__init__')
+    w = '%s:%s Tree.__init__' % (tm.rel, init.lineno)
+    for st, o in SymExec(init).run():
+        sets = {e[2]: e[3] for e in st.events if e[0] == 'setattr' and e[1] == N('self')}
+        want = {k: N(k) for k in ('cat', 'children', 'op_string', 'op_symbol', 'head_is_left')}
+        rep.check(sets == want, R, w, 'Tree.__init__:stores', 'Tree.__init__ stores category, children, label, symbol and head flag unchanged',
+                  'Tree.__init__ stores %s' % {k: show(v)[:30] for k, v in sets.items()})
+        break
+    shared = [src(s_)[:50] for s_ in cls.body if isinstance(s_, (ast.Assign, ast.AnnAssign)) and not (isinstance(s_, ast.AnnAssign) and s_.value is None)]
+    rep.check(not shared, R, '%s:%s Tree' % (tm.rel, cls.lineno), 'Tree:no-class-state', 'class Tree has no class-level (shared) state',
+              'class Tree keeps shared state: %s' % shared)
+
+
+def r_call_locals(repo, rep, R):
+    """the id-keyed C++ containers handed to parse_sentence (root-id set, rule cache, config) are declared inside run():
+    ids are positions in this call's category table, so nothing keyed by them may outlive the call."""
+    mod, run = _run_fn(repo)
+    w = '%s:%s run' % (REL, run.lineno)
+    seen = False
+    for st, out in SymExec(run, unroll=1).run():
+        calls = [e[1] for e in st.events if e[0] == 'call' and e[1][1] == N('parse_sentence')]
+        if not calls:
+            continue
+        seen = True
+        a = calls[0][2]
+        if len(a) != 11:
+            raise AnalysisError('%s: parse_sentence is called with %d arguments' % (REL, len(a)))
+        for idx, what in ((3, 'allowed-root id set'), (9, 'rule cache'), (10, 'search configuration')):
+            t = a[idx]
+            ok = t[0] == 'call' and t[1] == N('__cdecl__')
+            rep.check(ok, R, w, 'run:call-local:%s' % what.replace(' ', '-'),
+                      'the %s handed to the search is a local of this run() call' % what,
+                      'the %s handed to the search is %s, not a variable declared inside run(): category ids are only valid within one call'
+                      % (what, show(t)[:60]))
+        break
+    if not seen:
+        raise AnalysisError('%s: no path of run() calls parse_sentence' % REL)
+    globs = [n for n in ast.walk(run) if isinstance(n, (ast.Global, ast.Nonlocal))]
+    rep.check(not globs, R, w, 'run:no-global', 'run() declares no global state', 'run() writes module state: global %s' % [g.names for g in globs])
+
+
 def r_root_ids(repo, rep, R, table_info):
     mod, run = _run_fn(repo)
     params = [a.arg for a in run.args.args]
